@@ -1,9 +1,13 @@
 package clientworld
 
 import (
+	"bytes"
 	"context"
 	"crypto/sha256"
+	"encoding/pem"
 	"fmt"
+	"io"
+	"log"
 	"net/http"
 	"net/url"
 	"sort"
@@ -15,11 +19,45 @@ import (
 	"github.com/google/certificate-transparency-go/client"
 	"github.com/google/certificate-transparency-go/jsonclient"
 
+	"github.com/google/certificate-transparency-go/client/configpb"
+	"google.golang.org/protobuf/types/known/timestamppb"
+
 	"verif/sim/kernel"
 	"verif/sim/oracle"
 )
 
 // ---- C12: a keyed log client never hands back unverified signed data ----
+//
+// Edge / configuration audit (statement clause -> what the code compares -> what is drawn):
+//
+//  "configured with the log's public key": jsonclient.Options.PublicKeyDER (wins) | PublicKey PEM | both
+//    -> KeyForm der / pem / both(with a FOREIGN PEM key beside the right DER one); key classes P-256, RSA-2048
+//    and, under ct.AllowVerificationWithNonCompliantKeys, P-384; UserAgent/Authorization "" | set; base URI
+//    with/without trailing slash (TrimRight); TemporalLogClient (client/multilog.go): 2 keyed shards, outer
+//    bounds nil | set (4 combinations), leaves with NotAfter edge-1s, edge, edge+1s, lower, lower-1s,
+//    upper-1s, upper (IndexByDate: Before(lower), !Before(upper)); a signature by the OTHER shard's key.
+//    Logger: only the retry loop logs, nothing of C12 depends on it (quiet; C13 makes it a seam).
+//  STH: len(sha256_root_hash) != 32 -> 31/33/0/64; DigitallySigned: trailing bytes, truncated, length prefix
+//    +-1/+256, empty signature, hash / signature algorithm byte; tls.VerifySignature takes MD5..SHA-512 ->
+//    correctly signed with each other hash (either outcome; an accepted one is verified with that hash);
+//    bytes INSIDE the opaque signature after the ECDSA value; tree_size / timestamp 0, 2^63-1, 2^63, 2^64-1
+//    correctly re-signed; the same head with another signature on one client (memoisation).
+//  SCT: id absent/null/""/1/16/31/32/33/64 bytes, other key's, random; sct_version 0|1|255|256; extensions
+//    "", 3, 65535 (max), 65536 (over), bad base64, unsigned; timestamp 0 / max re-signed; signed for other
+//    timestamp / chain / entry type / signature type / key / key kind / shard; submitted chain: full (3-4
+//    certificates: "at most 3" are parsed), leaf alone, precert alone, precert+pre-issuer, EMPTY (len 0),
+//    full + an unparsable 4th/3rd element.
+//  "non-200": 199 201 202 204 206 299 300 304 400 403 404 408 429 500 502 503 with the correct body.
+//  "truncated / over-long / wrongly typed": body cut at every byte (read error), cut cleanly, trailing
+//    garbage, each field wrongly typed / null / missing / out of range (2^64, 2^63, -1, 1.5, 1e400), whole
+//    body [] "x" 12 true null {}; Body.Close failing after a complete read.
+//  GetRawEntries/GetEntries: end < 0, end < start -> (-1,0) (0,-1) (1,0) (-5,-1) (-1,-1) (0,0) (n-1,n-1)
+//    (n,n+3) (0,2^62); fewer / more / zero entries than asked.
+//  Entry decoder: every length prefix -1/+1, zero-length certificate / TBS / pre_certificate / chain member,
+//    empty chain, 1-2 stray bytes inside the chain vector, extensions 1 / 65535 bytes, timestamp 0 / max,
+//    version and leaf type 1|255, entry types 2 0x7fff 0x8000(JSON) 0x8001 0xffff, the other type's
+//    extra_data, one byte short; a certificate that parses only leniently (non-fatal error path).
+//  Not drawn: hc == nil (would use the real network), nil context, req values json cannot marshal.
 //
 // Real code: client.LogClient (all methods) created with the log's public key,
 // jsonclient, ct.LogEntryFromLeaf / ct.RawLogEntryFromLeaf.
@@ -32,12 +70,18 @@ const (
 	expectFail   = 1 // malformed / truncated / over-long / wrongly typed / non-200: must produce an error
 )
 
-var c12Kinds = []string{"get-sth", "add-chain", "add-pre-chain", "get-sth-consistency", "get-proof-by-hash", "get-raw-entries", "get-entries", "get-roots", "get-entry-and-proof", "decode"}
+var c12Kinds = []string{"get-sth", "add-chain", "add-pre-chain", "get-sth-consistency", "get-proof-by-hash", "get-raw-entries", "get-entries", "get-roots", "get-entry-and-proof", "decode", "t-add-chain", "t-add-pre-chain"}
+
+func init() {
+	// the code under test writes to the standard logger (tls.VerifySignature: "Garbage following
+	// signature", NewSignatureVerifier warnings, the default jsonclient logger of the shard clients)
+	log.SetOutput(io.Discard)
+}
 
 var c12Path = map[string]string{
 	"get-sth": "get-sth", "add-chain": "add-chain", "add-pre-chain": "add-pre-chain", "get-sth-consistency": "get-sth-consistency",
 	"get-proof-by-hash": "get-proof-by-hash", "get-raw-entries": "get-entries", "get-entries": "get-entries", "get-roots": "get-roots",
-	"get-entry-and-proof": "get-entry-and-proof",
+	"get-entry-and-proof": "get-entry-and-proof", "t-add-chain": "add-chain", "t-add-pre-chain": "add-pre-chain",
 }
 
 type c12Profile struct {
@@ -49,6 +93,10 @@ type c12Profile struct {
 	MutW       int
 	GroupW     map[string]int // http | json | signed | bytes
 	KindW      []int
+	KeyForm    string // how the client is given the log key: der | pem | both (DER wins; the PEM one is a foreign key)
+	Slash      bool   // base URI with a trailing slash
+	Agent      bool   // Options.UserAgent / Authorization set
+	ShardOpen  int    // temporal client: 0 both outer bounds set, 1 no lower bound, 2 no upper bound, 3 neither
 }
 
 type c12Op struct {
@@ -91,7 +139,10 @@ type c12Op struct {
 	harvested bool
 }
 
-func (op *c12Op) isPost() bool { return op.Kind == "add-chain" || op.Kind == "add-pre-chain" }
+func (op *c12Op) isPost() bool {
+	return op.Kind == "add-chain" || op.Kind == "add-pre-chain" || op.temporal()
+}
+func (op *c12Op) temporal() bool { return op.Kind == "t-add-chain" || op.Kind == "t-add-pre-chain" }
 
 type c12World struct {
 	s       *kernel.Sim
@@ -108,6 +159,62 @@ type c12World struct {
 	byName  map[string]*c12Op
 	started int
 	sctTS   uint64
+
+	// temporal (sharded) client: shard 0 = the log above at /sim, shard 1 = a second key at /sim2;
+	// certificates whose NotAfter is below shardEdge go to shard 0
+	tlc       *client.TemporalLogClient
+	shardKey  *oracle.Key // key of shard 1
+	shardEdge time.Time
+	shardLo   time.Time // lower bound of shard 0 (zero: none)
+	shardHi   time.Time // upper bound of shard 1 (zero: none)
+	tsubs     []*submission
+}
+
+// keyFor is the key of the log a request path addresses.
+func (w *c12World) keyFor(path string) *oracle.Key {
+	if strings.HasPrefix(path, "/sim2/") {
+		return w.shardKey
+	}
+	return w.logKey
+}
+
+func (w *c12World) shardEdgeAt(epoch time.Time) time.Time {
+	return epoch.Truncate(time.Second).AddDate(0, 3, 0)
+}
+
+// expectedShard says, from the configuration alone, which shard a NotAfter belongs to (-1: none).
+func (w *c12World) expectedShard(na time.Time) int {
+	switch {
+	case na.Before(w.shardEdge):
+		if !w.shardLo.IsZero() && na.Before(w.shardLo) {
+			return -1
+		}
+		return 0
+	case !w.shardHi.IsZero() && !na.Before(w.shardHi):
+		return -1
+	}
+	return 1
+}
+
+// quirkOf returns the submission with every PrintableString "GB" of its leaf turned into "G@".
+func quirkOf(sub *submission) *submission {
+	der := bytes.ReplaceAll(sub.leaf.DER, []byte{0x13, 0x02, 'G', 'B'}, []byte{0x13, 0x02, 'G', '@'})
+	if bytes.Equal(der, sub.leaf.DER) {
+		return nil
+	}
+	leaf := *sub.leaf
+	leaf.DER = der
+	q := *sub
+	q.leaf = &leaf
+	q.entry = oracle.Entry{Type: oracle.X509Entry, Cert: der}
+	return &q
+}
+
+func endpointOf(path string) string {
+	if i := strings.Index(path, "/ct/v1/"); i >= 0 {
+		return path[i+len("/ct/v1/"):]
+	}
+	return path
 }
 
 func newC12() kernel.World { return &c12World{} }
@@ -116,7 +223,8 @@ func (w *c12World) Init(s *kernel.Sim) {
 	w.s = s
 	t := s.T
 	p := &w.prof
-	p.LogKeyKind = []string{"p256", "rsa2048"}[t.Intn(2)]
+	// p384 is a key RFC 6962 does not allow: the client takes it only with ct.AllowVerificationWithNonCompliantKeys
+	p.LogKeyKind = []string{"p256", "rsa2048", "p256", "rsa2048", "p384"}[t.Intn(5)]
 	p.Entries = t.Range(2, 6)
 	p.MaxOps = t.Range(3, 16)
 	p.Conc = t.Range(1, 3)
@@ -136,16 +244,49 @@ func (w *c12World) Init(s *kernel.Sim) {
 		}
 	}
 
+	p.KeyForm = []string{"der", "pem", "both"}[t.Intn(3)]
+	p.Slash = t.Chance(1, 3)
+	p.Agent = t.Chance(1, 3)
+	p.ShardOpen = t.Intn(4)
+	ct.AllowVerificationWithNonCompliantKeys = p.LogKeyKind == "p384" // process-global; one run at a time per process
+
 	w.ctx, w.cancel = context.WithCancel(context.Background())
 	epoch := time.Now()
 	w.pki = newPKI(t, epoch, true)
-	w.logKey = logKeyFor(p.LogKeyKind, t.Intn(2))
+	ki := t.Intn(2)
+	w.logKey = logKeyFor(p.LogKeyKind, ki)
+	w.shardKey = logKeyFor(p.LogKeyKind, ki+1)
 	w.logID = sha256.Sum256(w.logKey.SPKI)
 	w.log = &refLog{key: w.logKey, sthTS: uint64(epoch.UnixMilli()) + 5000}
 	w.sctTS = uint64(epoch.UnixMilli())
 	for i := 0; i < p.Entries; i++ {
 		sub := w.pki.newSubmission(t, i, t.Chance(2, 5), true)
 		w.log.add(sub, uint64(epoch.UnixMilli())+uint64(i))
+	}
+	if t.Chance(1, 2) {
+		// an entry whose certificate only parses leniently (an '@' in a PrintableString): the decoders
+		// return it together with a non-fatal error, GetEntries carries on
+		if q := quirkOf(w.pki.newSubmission(t, 50, false, true)); q != nil {
+			w.log.add(q, uint64(epoch.UnixMilli())+50)
+			s.Probe("log.lenient-only-entry")
+		}
+	}
+	// leaves for the sharded client: NotAfter right below, at and right above the edge between the
+	// shards, and at the outer bounds where there are any
+	edges := []time.Time{w.shardEdgeAt(epoch).Add(-time.Second), w.shardEdgeAt(epoch), w.shardEdgeAt(epoch).Add(time.Second)}
+	if p.ShardOpen&1 == 0 {
+		lo := w.shardEdgeAt(epoch).AddDate(0, -2, 0)
+		edges = append(edges, lo, lo.Add(-time.Second))
+	}
+	if p.ShardOpen&2 == 0 {
+		hi := w.shardEdgeAt(epoch).AddDate(0, 2, 0)
+		edges = append(edges, hi.Add(-time.Second), hi)
+	}
+	for i, na := range edges {
+		for _, pre := range []bool{false, true} {
+			w.pki.notAfter = na
+			w.tsubs = append(w.tsubs, w.pki.newSubmission(t, 200+2*i, pre, true))
+		}
 	}
 	// submissions for the add-chain ops: one of each entry type
 	w.subs = append(w.subs, w.pki.newSubmission(t, 100, false, true), w.pki.newSubmission(t, 101, true, true))
@@ -154,12 +295,49 @@ func (w *c12World) Init(s *kernel.Sim) {
 		w.subs = append(w.subs, w.pki.newSubmissionVia(t, 102, true, true, 1))
 	}
 
-	lc, err := client.New("http://log.test/sim", &http.Client{Transport: &transport{s: s}},
-		jsonclient.Options{PublicKeyDER: w.logKey.SPKI, Logger: quietLogger{}})
+	opts := jsonclient.Options{Logger: quietLogger{}}
+	pemOf := func(k *oracle.Key) string {
+		return string(pem.EncodeToMemory(&pem.Block{Type: "PUBLIC KEY", Bytes: k.SPKI}))
+	}
+	switch p.KeyForm {
+	case "der":
+		opts.PublicKeyDER = w.logKey.SPKI
+	case "pem":
+		opts.PublicKey = pemOf(w.logKey)
+	default:
+		opts.PublicKeyDER, opts.PublicKey = w.logKey.SPKI, pemOf(foreignKey(w.logKey.Kind)) // the DER one is documented to win
+	}
+	if p.Agent {
+		opts.UserAgent, opts.Authorization = "verif-sim/1.0", "Bearer sim"
+	}
+	uri := "http://log.test/sim"
+	if p.Slash {
+		uri += "/"
+	}
+	hc := &http.Client{Transport: &transport{s: s}}
+	lc, err := client.New(uri, hc, opts)
 	if err != nil {
 		panic("harness: client.New: " + err.Error())
 	}
 	w.lc = lc
+
+	// the sharded client: two keyed shards meeting at shardEdge; leaves right below, at and above the edge
+	w.shardEdge = w.shardEdgeAt(epoch)
+	sh0 := &configpb.LogShardConfig{Uri: "http://log.test/sim", PublicKeyDer: w.logKey.SPKI, NotAfterLimit: timestamppb.New(w.shardEdge)}
+	sh1 := &configpb.LogShardConfig{Uri: "http://log.test/sim2", PublicKeyDer: w.shardKey.SPKI, NotAfterStart: timestamppb.New(w.shardEdge)}
+	if p.ShardOpen&1 == 0 {
+		w.shardLo = w.shardEdge.AddDate(0, -2, 0)
+		sh0.NotAfterStart = timestamppb.New(w.shardLo)
+	}
+	if p.ShardOpen&2 == 0 {
+		w.shardHi = w.shardEdge.AddDate(0, 2, 0)
+		sh1.NotAfterLimit = timestamppb.New(w.shardHi)
+	}
+	tlc, err := client.NewTemporalLogClient(&configpb.TemporalLogConfig{Shard: []*configpb.LogShardConfig{sh0, sh1}}, hc)
+	if err != nil {
+		panic("harness: NewTemporalLogClient: " + err.Error())
+	}
+	w.tlc = tlc
 	w.byName = map[string]*c12Op{}
 	s.Logf("profile %+v key=%s", *p, w.logKey.Name)
 }
@@ -175,8 +353,27 @@ func (w *c12World) newOp() *c12Op {
 	case "add-chain":
 		op.sub = w.subs[0]
 		op.submitted = op.sub.rawChain()
-		if t.Chance(1, 4) {
+		switch t.Intn(16) {
+		case 1, 2, 3, 4:
 			op.trunc, op.submitted = "cert-alone", op.submitted[:1]
+		case 5:
+			op.trunc, op.submitted = "empty-chain", nil
+		case 6, 7:
+			// a further "certificate" the client has no reason to look at (it needs at most three)
+			op.trunc, op.submitted = "junk-tail", append(op.submitted, []byte("not a certificate"))
+		}
+	case "t-add-chain", "t-add-pre-chain":
+		// through the sharded client; only leaves of the matching entry type
+		var pool []*submission
+		for _, sb := range w.tsubs {
+			if sb.isPre == (op.Kind == "t-add-pre-chain") {
+				pool = append(pool, sb)
+			}
+		}
+		op.sub = pool[t.Intn(len(pool))]
+		op.submitted = op.sub.rawChain()
+		if t.Chance(1, 10) {
+			op.trunc, op.submitted = "empty-chain", nil
 		}
 	case "add-pre-chain":
 		op.sub = w.subs[1+t.Intn(len(w.subs)-1)]
@@ -190,6 +387,10 @@ func (w *c12World) newOp() *c12Op {
 			} else {
 				op.trunc, op.submitted = "precert-alone", op.submitted[:1]
 			}
+		} else if t.Chance(1, 12) {
+			op.trunc, op.submitted = "empty-chain", nil
+		} else if t.Chance(1, 6) {
+			op.trunc, op.submitted = "junk-tail", append(op.submitted, []byte("not a certificate"))
 		}
 	case "get-sth-consistency":
 		op.B = int64(t.Range(1, int(n)))
@@ -204,6 +405,12 @@ func (w *c12World) newOp() *c12Op {
 	case "get-raw-entries", "get-entries":
 		op.A = int64(t.Intn(int(n)))
 		op.B = op.A + int64(t.Intn(int(n-op.A)+1))
+		if t.Chance(1, 6) {
+			// the edges of the client's own range checks (end < 0, end < start) and of the tree
+			e := [][2]int64{{-1, 0}, {0, -1}, {1, 0}, {-5, -1}, {0, 0}, {n - 1, n - 1}, {n, n + 3}, {0, 1 << 62}, {-1, -1}}[t.Intn(9)]
+			op.A, op.B = e[0], e[1]
+			op.mutNote = "range-edge "
+		}
 	case "get-entry-and-proof":
 		op.B = int64(t.Range(1, int(n)))
 		op.A = int64(t.Intn(int(op.B)))
@@ -212,6 +419,10 @@ func (w *c12World) newOp() *c12Op {
 		op.leafIn, op.extra = append([]byte{}, e.leaf...), append([]byte{}, e.extra...)
 		op.A = int64(t.Intn(5))
 		nm := t.Intn(3)
+		if t.Chance(1, 3) {
+			nm = 0
+			op.leafIn, op.extra, op.mutNote = w.edgeEntry(e)
+		}
 		for i := 0; i < nm; i++ {
 			var note string
 			if t.Chance(1, 2) {
@@ -271,6 +482,10 @@ func (w *c12World) run(op *c12Op) {
 			r.SCT, r.Err = w.lc.AddChain(ctx, asn1Chain(op.submitted))
 		case "add-pre-chain":
 			r.SCT, r.Err = w.lc.AddPreChain(ctx, asn1Chain(op.submitted))
+		case "t-add-chain":
+			r.SCT, r.Err = w.tlc.AddChain(ctx, asn1Chain(op.submitted))
+		case "t-add-pre-chain":
+			r.SCT, r.Err = w.tlc.AddPreChain(ctx, asn1Chain(op.submitted))
 		case "get-sth-consistency":
 			r.Proof, r.Err = w.lc.GetSTHConsistency(ctx, uint64(op.A), uint64(op.B))
 		case "get-proof-by-hash":
@@ -331,14 +546,15 @@ func qInt(q url.Values, name string) (int, bool) {
 }
 
 func (w *c12World) honest(op *c12Op, c *rtCall) *hon {
-	ep := strings.TrimPrefix(c.Path, "/sim/ct/v1/")
+	ep := endpointOf(c.Path)
+	key := w.keyFor(c.Path)
 	q, _ := url.ParseQuery(c.Query)
 	n := w.log.size()
 	h := &hon{ep: ep, status: 200}
 	switch ep {
 	case "get-sth":
 		h.sthTS, h.sthSize, h.sthRoot = w.log.sthTS, uint64(n), w.log.root(n)
-		h.obj = w.sthObj(w.logKey, h.sthTS, h.sthSize, h.sthRoot)
+		h.obj = w.sthObj(key, h.sthTS, h.sthSize, h.sthRoot)
 	case "get-sth-consistency":
 		first, ok1 := qInt(q, "first")
 		second, ok2 := qInt(q, "second")
@@ -394,7 +610,7 @@ func (w *c12World) honest(op *c12Op, c *rtCall) *hon {
 		}
 		w.sctTS++
 		h.sctTS, h.sub = w.sctTS, op.sub
-		h.obj = sctObj(w.logKey, h.sctTS, op.sub.entry, nil)
+		h.obj = sctObj(key, h.sctTS, op.sub.entry, nil)
 	default:
 		return refuse(ep, 404, "no such endpoint")
 	}
@@ -469,7 +685,7 @@ func (w *c12World) Options(s *kernel.Sim) []kernel.Option {
 func (w *c12World) answer(p *kernel.Parked, op *c12Op, c *rtCall, o *served) {
 	s := w.s
 	c.Out = o
-	s.Logf("server -> %s#%d %s %s: [%s] %s", op.Party, c.Idx, c.Method, strings.TrimPrefix(c.Path, "/sim/ct/v1/"), o.Kind, o)
+	s.Logf("server -> %s#%d %s %s: [%s] %s", op.Party, c.Idx, c.Method, strings.TrimPrefix(c.Path, "/"), o.Kind, o)
 	if !o.Honest {
 		s.Fault(faultFamily(o.Kind))
 		s.Probe("mut." + o.Kind)
